@@ -42,6 +42,11 @@ func (c *PC) PrincipalComponents(a mat.Matrix, weights []float64) (ok bool) {
 	c.svd, c.ok = svdFactorizeCentered(c.svd, a, weights)
 	if c.ok {
 		c.weights = append(c.weights[:0], weights...)
+		if weights == nil {
+			// A reused receiver must not keep an empty
+			// non-nil slice from a weighted analysis.
+			c.weights = nil
+		}
 	}
 	return c.ok
 }
